@@ -31,7 +31,7 @@ int main(int argc, char** argv){
     s.order.resize(s.nd); s.nk.resize(s.nd);
     for (li++; li < lines.size() && lines[li] != "end"; li++) { std::istringstream ds(lines[li]); std::string k; ds >> k; if (k == "dim") { unsigned d; std::string a; ds >> d >> a >> s.order[d] >> a >> s.nk[d]; }
       else if (k == "aux") { std::string kv; ds >> kv; size_t bar = kv.find('|'); std::string key = kv.substr(0, bar), val = kv.substr(bar + 1); for (auto& c : val) if (c == '~') c = ' '; s.aux.push_back({key, val}); } }
-    bool realmode = s.scen == "ops" || s.scen == "opsfail" || s.scen == "estimate";      // convolution sorts computed knots: exact reals, concrete rational knots
+    bool realmode = s.scen == "ops" || s.scen == "opsfail" || s.scen == "estimate" || s.scen == "fitgrid";      // convolution sorts computed knots: exact reals, concrete rational knots
     ncase++; vs_reset(realmode ? 0 : 1); vs_note("case", id.c_str()); exc_pending = 0; reset_files(); vm_fail_at = -1;
     if (setjmp(vs_jmp)) { nerr++; continue; }
     ps_table t; build(t, s, "", realmode);
@@ -133,6 +133,38 @@ int main(int argc, char** argv){
       eqi(id + " bytes requested while loading <= estimateMemory (" + note + ")", load_peak <= est, 1);
       eqi(id + " bytes requested while loading and convolving <= estimateMemory (" + note + ")", tab_peak <= est, 1);
       ir_e_destroy((char*)&ct); /* deallocate() sizes that differ from the requested ones (auxiliary values read with quotes) are C20's subject */ eqi(id + " allocator balance after destruction", tab_cur, 0); eqi(id + " no block left", tab_live, 0);
+    } else if (sc == "fitgrid") {
+      // splinetable_glamfit / splinetable_grideval / ndsparse_destroy next to fit() / grideval(): concrete knots (from the shape) and
+      // abscissae, symbolic data values, weights and smoothing; the solution of the linear system is a vector of fresh variables
+      unsigned ND = s.nd; std::vector<std::vector<vr64>> kn(ND), co(ND); std::vector<uint32_t> ord(ND), po(ND);
+      for (unsigned d = 0; d < ND; d++) { ord[d] = s.order[d]; po[d] = s.order[d] ? 1 : 0; for (uint64_t i = 0; i < s.nk[d]; i++) kn[d].push_back(vs_q((long)i, 1)); unsigned ncd = 2 + d; vr64 lo = kn[d][ord[d]], hi = kn[d][s.nk[d] - ord[d] - 1];
+        for (unsigned i = 0; i < ncd; i++) co[d].push_back(vs_add(lo, vs_mul(vs_sub(hi, lo), vs_q(2 * i + 1, 2 * ncd)))); }
+      std::vector<std::vector<unsigned>> rowsidx; { std::vector<unsigned> ix(ND, 0); while (true) { rowsidx.push_back(ix); int d = ND - 1; while (d >= 0 && ++ix[d] == co[d].size()) { ix[d] = 0; d--; } if (d < 0) break; } }
+      size_t R = rowsidx.size(); struct ndsp { size_t rows, ndim; vr64* x; unsigned** i; unsigned* ranges; } data; data.rows = R; data.ndim = ND; std::vector<vr64> y(R), w(R), sm(ND); std::vector<std::vector<unsigned>> idx(ND, std::vector<unsigned>(R)); std::vector<unsigned*> ip(ND); std::vector<unsigned> ranges(ND);
+      for (unsigned d = 0; d < ND; d++) { ranges[d] = co[d].size(); for (size_t r = 0; r < R; r++) idx[d][r] = rowsidx[r][d]; ip[d] = idx[d].data(); char nm[24]; snprintf(nm, 24, "lam%u", d); sm[d] = vs_var_between(nm, vs_q(0, 1), VS_NOBOUND); }
+      for (size_t r = 0; r < R; r++) { char nm[24]; snprintf(nm, 24, "y%zu", r); y[r] = vs_var(nm); snprintf(nm, 24, "w%zu", r); w[r] = vs_var_between(nm, vs_q(0, 1), VS_NOBOUND); }
+      data.x = y.data(); data.i = ip.data(); data.ranges = ranges.data();
+      std::vector<vr64*> cp(ND), kp(ND); std::vector<uint64_t> cn(ND), knn(ND); std::vector<uint32_t> cn32(ND); for (unsigned d = 0; d < ND; d++) { cp[d] = co[d].data(); cn[d] = co[d].size(); cn32[d] = co[d].size(); kp[d] = kn[d].data(); knn[d] = kn[d].size(); }
+      int cm0 = cm_live_objects;
+      for (uint32_t monodim : {0xffffffffu, ND}) { bool bad = monodim != 0xffffffffu; std::string lab = id + (bad ? " (monotonic dimension out of range)" : "");
+        chandle h = {0}; ir_splinetable_init((char*)&h); ps_table u; ir_t_default_construct((char*)&u);
+        uint32_t rc = ir_splinetable_glamfit((char*)&h, (char*)&data, (char*)w.data(), (char*)cp.data(), (char*)ord.data(), (char*)kp.data(), (char*)knn.data(), (char*)sm.data(), (char*)po.data(), monodim, 0); escaped(lab + " splinetable_glamfit");
+        ir_w_fit((char*)&u, (char*)&data, (char*)w.data(), R, (char*)cp.data(), (char*)cn.data(), ND, (char*)ord.data(), ND, (char*)kp.data(), (char*)knn.data(), ND, (char*)sm.data(), ND, (char*)po.data(), ND, monodim); bool thr = exc_pending; exc_pending = 0;
+        eqi(lab + " splinetable_glamfit fails iff fit throws", rc != 0, thr); same(lab + " table after splinetable_glamfit:", u, *TT(h));
+        if (!thr && rc == 0) { // grid evaluation: ownership of the result passes to the caller
+          char* res = (char*)1; uint32_t grc = ir_splinetable_grideval((char*)&h, (char*)cp.data(), (char*)cn32.data(), (char*)&res); escaped(lab + " splinetable_grideval");
+          ndsp* tw = (ndsp*)ir_w_grideval((char*)&u, (char*)cp.data(), (char*)cn.data(), ND); bool gthr = exc_pending; exc_pending = 0;
+          eqi(lab + " splinetable_grideval fails iff grideval throws", grc != 0, gthr); eqi(lab + " result pointer set exactly on success", (res != 0), grc == 0);
+          if (grc == 0 && res && tw) { ndsp* g = (ndsp*)res; eqi(lab + " grid result rows", g->rows, tw->rows); eqi(lab + " grid result ndim", g->ndim, tw->ndim);
+            if (g->rows == tw->rows && g->ndim == tw->ndim) { for (size_t r = 0; r < g->rows; r++) { eqh(lab + " grid result value", g->x[r], tw->x[r]); for (unsigned d = 0; d < g->ndim; d++) eqi(lab + " grid result index", g->i[d][r], tw->i[d][r]); } for (unsigned d = 0; d < g->ndim; d++) eqi(lab + " grid result range", g->ranges[d], tw->ranges[d]); }
+            int sg = guarded([&]{ ir_ndsparse_destroy(res); }); eqi(lab + " ndsparse_destroy releases the result without a crash", sg, 0); escaped(lab + " ndsparse_destroy"); }
+          if (tw) ir_w_ndsparse_delete((char*)tw);
+          // a failing allocation inside grideval: non-zero return, result NULL, nothing escapes
+          int a0 = vm_alloc_count; { char* r2 = 0; ir_splinetable_grideval((char*)&h, (char*)cp.data(), (char*)cn32.data(), (char*)&r2); exc_pending = 0; if (r2) ir_ndsparse_destroy(r2); } int used = vm_alloc_count - a0;
+          for (int k = 0; k < used; k++) { char* r2 = (char*)1; vm_fail_at = vm_alloc_count + k; uint32_t frc = ir_splinetable_grideval((char*)&h, (char*)cp.data(), (char*)cn32.data(), (char*)&r2); vm_fail_at = -1; std::string fl = lab + " grideval allocation #" + std::to_string(k) + " fails:";
+            bool esc = escaped(fl + " splinetable_grideval"); if (!esc) { eqi(fl + " reported as a non-zero return", frc != 0, 1); eqi(fl + " result is NULL", r2 == 0, 1); } if (frc == 0 && r2 && r2 != (char*)1) ir_ndsparse_destroy(r2); } }
+        ir_t_destroy((char*)&u); ir_splinetable_free((char*)&h); }
+      eqi(id + " CHOLMOD objects balanced", cm_live_objects, cm0); balanced(id);
     } else vs_error("unknown scenario");
   }
   printf("E2 cases=%d errors=%d\n", ncase, nerr); return 0;
